@@ -2,4 +2,5 @@ import PydjinniModel.Props.C03
 import PydjinniModel.Props.C03Parse
 import PydjinniModel.Props.C03Lex
 import PydjinniModel.Props.C03Decl
-/-! All C03 theorems (target sets, comments, lexer progress/termination/positions/reconstruction; parse ∘ print round trip for types/fields (C03Parse) and for whole declarations, namespaces and files (C03Decl)). -/
+import PydjinniModel.Props.C03Text
+/-! All C03 theorems (target sets, comments, lexer progress/termination/positions/reconstruction; parse ∘ print round trip for types/fields (C03Parse) and for whole declarations, namespaces and files (C03Decl); text level: every admissible layout of well-formed tokens lexes/parses back (C03Text)). -/
